@@ -430,7 +430,7 @@ var variants = map[int][]int{0: {6, 7, 8, 9}, 1: {12}, 2: {11}}
 func (g *gen) limited() []KV {
 	r := g.r
 	inst := []int{2, 1, 4}[r.Intn(g.c.Limit)] // instance = web | B | 日本
-	ls := []KV{{0, r.Intn(2)}, {2, inst}}    // alertname = A | B
+	ls := []KV{{0, r.Intn(2)}, {2, inst}}     // alertname = A | B
 	if r.Chance(1, 4) {
 		ls = append(ls, KV{vh.Pick(r, []int{1, 3}), vEmpty})
 	}
@@ -1230,7 +1230,7 @@ func TestCheck(t *testing.T) {
 		run.Count("mode", "mode="+c.Mode)
 		run.Count("history_len", fmt.Sprintf("%02d-%02d", len(c.Ops)/5*5, len(c.Ops)/5*5+4))
 	}
-	if err := run.Finish("random POST/direct-Put/sleep histories over a few label sets (incl. empty-valued and invalid labels) against the real api/v2 handlers + provider/mem under synctest; gc runs on the provider's own ticker; after every op GET /api/v2/alerts and the provider's full list are recorded; non-trivial = some POST met an already stored alert of its label set; distinct by full history text"); err != nil {
+	if err := run.Finish("random POST/direct-Put/sleep histories over a few label sets (incl. empty-valued and invalid labels, values differing only in white space / case, unusual timestamp literals from the epoch to year 9999, a fifth of the cases with the per-alertname limit on at capacity) against the real api/v2 handlers + provider/mem under synctest; gc runs on the provider's own ticker; after every op GET /api/v2/alerts and the provider's full list are recorded; non-trivial = some POST met an already stored alert of its label set; distinct by full history text"); err != nil {
 		t.Fatal(err)
 	}
 }
